@@ -176,3 +176,43 @@ def _(M, a, c):
     return some(call_closure(M, f, [o.fields[0]], byref=False))
 @model_re(r'^<fn\(.*\) -> .* as Clone>::clone$')
 def _(M, a, c): return V(a[0])
+@model_re(r'^Vec::pop$')
+def _(M, a, c):
+    b = V(a[0]).d['b']
+    return some(b.pop()) if b else NONE()
+@model_re(r'^Vec::truncate$')
+def _(M, a, c):
+    b = V(a[0]).d['b']; n = a[1].v
+    del b[n:]; return UNIT
+@model_re(r'^Vec::insert$')
+def _(M, a, c):
+    b = V(a[0]).d['b']; b.insert(a[1].v, a[2]); return UNIT
+@model_re(r'^Vec::is_empty$')
+def _(M, a, c): return len(V(a[0]).d['b']) == 0
+@model_re(r'^Option::unwrap$')
+def _(M, a, c):
+    if a[0].variant == 0: raise Panic("unwrap on None")
+    return a[0].fields[0]
+@model_re(r'^Option::is_some$')
+def _(M, a, c): return V(a[0]).variant == 1
+@model_re(r'^Option::is_none$')
+def _(M, a, c): return V(a[0]).variant == 0
+@model_re(r'^Option::cloned$|^Option::copied$')
+def _(M, a, c):
+    o = a[0]
+    return NONE() if o.variant == 0 else some(vcopy(V(o.fields[0])))
+@model_re(r'^Option::unwrap_or_else$')
+def _(M, a, c):
+    o, f = a
+    if o.variant == 1: return o.fields[0]
+    return call_closure(M, f, [], byref=False)
+@model_re(r'^<std::vec::IntoIter<.*> as Iterator>::rev$')
+def _(M, a, c):
+    it = a[0]; return Native('IntoIter', b=list(reversed(it.d['b'][it.d['pos']:])), pos=0)
+@model_re(r'^<Rev<std::vec::IntoIter<.*>> as Iterator>::collect$|^<std::vec::IntoIter<.*> as Iterator>::collect$')
+def _(M, a, c):
+    it = a[0]; return Native('Vec', b=it.d['b'][it.d['pos']:])
+@model_re(r'^Box::new$')
+def _(M, a, c): return Native('Box', slot=[a[0]])
+@model_re(r'^<.* as Into<.*>>::into$|^<.* as From<.*>>::from$')
+def _(M, a, c): return a[0]
